@@ -412,6 +412,12 @@ def _facts_for(path, name, ts, app):
             for (t2, c2, s2) in path.trig:
                 F.append(z3.Implies(t == t2, z3.And(c == c2, s == s2)))
                 F.append(z3.Implies(t == -t2, z3.And(c == c2, s == -s2)))
+                # injectivity of sin on [-pi/2, pi/2] and of cos on [0, pi]
+                F.append(z3.Implies(z3.And(t >= -PI / 2, t <= PI / 2, t2 >= -PI / 2, t2 <= PI / 2,
+                                           s == s2), t == t2))
+                F.append(z3.Implies(z3.And(t >= 0, t <= PI, t2 >= 0, t2 <= PI, c == c2), t == t2))
+                F.append(z3.Implies(z3.And(t > -PI, t <= PI, t2 > -PI, t2 <= PI, c == c2, s == s2),
+                                    t == t2))
             path.trig.append((t, c, s))
     elif name == "exp":
         t = ts[0]
